@@ -121,11 +121,12 @@ int vrt_is_freed (const void *p) {
 }
 
 /* ---------- trace ---------- */
-struct ev { long step; int tid, kind, order, ok, line; uint32_t a, b; char where[28]; char obj[28]; };
+struct ev { long step; int tid, kind, order, ok, line; uint32_t a, b; char where[28]; char obj[28]; int64_t now; };
 static struct ev *trace = NULL;
 static long ntrace = 0, cap_trace = 0;
-static char notes[256][160];
-static long note_step[256];
+static char notes[4096][96];
+static long note_step[4096];
+static long note_pos[4096];
 static int nnotes = 0;
 
 static void log_ev (int tid, int kind, int order, const volatile void *p, uint32_t a, uint32_t b, int ok,
@@ -137,6 +138,7 @@ static void log_ev (int tid, int kind, int order, const volatile void *p, uint32
 		trace = (struct ev *) realloc (trace, cap_trace * sizeof (*trace));
 	}
 	e = &trace[ntrace++];
+	e->now = now_ns;
 	e->step = steps; e->tid = tid; e->kind = kind; e->order = order; e->ok = ok; e->a = a; e->b = b; e->line = line;
 	base = file ? strrchr (file, '/') : NULL;
 	snprintf (e->where, sizeof (e->where), "%s", file ? (base ? base + 1 : file) : "-");
@@ -165,8 +167,8 @@ static void take_snapshot (long idx) {
 }
 void vrt_region_name (const void *p, char *buf, size_t n) { addr_name (p, buf, n); }
 static void print_ev (FILE *f, struct ev *e) {
-	fprintf (f, "E %ld %d %s %s %s:%d %s %u %u %d\n", e->step, e->tid, kname[e->kind], oname[e->order & 3],
-		 e->where, e->line, e->obj, e->a, e->b, e->ok);
+	fprintf (f, "E %ld %d %s %s %s:%d %s %u %u %d %lld\n", e->step, e->tid, kname[e->kind], oname[e->order & 3],
+		 e->where, e->line, e->obj, e->a, e->b, e->ok, (long long) e->now);
 }
 static void dump_trace (void) {
 	const char *path = getenv ("VRT_TRACE");
@@ -178,7 +180,7 @@ static void dump_trace (void) {
 	if (f == NULL) return;
 	fprintf (f, "H seed=%ld steps=%ld threads=%d\n", seed, steps, nthr);
 	for (i = 0; i < ntrace; i++) {
-		while (k < nnotes && note_step[k] <= trace[i].step) { fprintf (f, "N %ld %s\n", note_step[k], notes[k]); k++; }
+		while (k < nnotes && note_pos[k] <= i) { fprintf (f, "N %ld %s\n", note_step[k], notes[k]); k++; }
 		print_ev (f, &trace[i]);
 		if (snaps != NULL && i < cap_snaps && snaps[i] != NULL) fprintf (f, "S %s\n", snaps[i]);
 	}
@@ -187,10 +189,11 @@ static void dump_trace (void) {
 }
 void vrt_note (const char *fmt, ...) {
 	va_list ap;
-	if (nnotes < 256) {
+	if (nnotes < 4096) {
 		va_start (ap, fmt);
 		vsnprintf (notes[nnotes], sizeof (notes[0]), fmt, ap);
 		va_end (ap);
+		note_pos[nnotes] = ntrace;
 		note_step[nnotes++] = steps;
 	}
 }
@@ -655,6 +658,8 @@ int vrt_clock_gettime (clockid_t c, struct timespec *ts) {
 static long futex_wait (struct thr *me, volatile uint32_t *uaddr, uint32_t val, const struct timespec *ts) {
 	int64_t dl = 0;
 	atomic_addr_check (me->id, uaddr, "futex wait");
+	if (ts != NULL) vrt_note ("fts %d %lld %lld", me->id, (long long) ts->tv_sec, (long long) ts->tv_nsec);
+	else vrt_note ("fts %d none", me->id);
 	if (ts != NULL) {
 		/* Linux: timespec64_valid() -- tv_sec >= 0 and 0 <= tv_nsec < 1e9, else EINVAL */
 		if (ts->tv_sec < 0 || ts->tv_nsec < 0 || ts->tv_nsec >= 1000000000L) {
@@ -803,6 +808,12 @@ void vrt_free (void *p) {
 	fprintf (stderr, "vrt: free of unknown pointer %p\n", p);
 	_exit (3);
 }
+
+/* shadow variables for scenario oracles (kept outside the instrumented code) */
+static long shadow[64];
+long vrt_sh_add (int i, long d) { shadow[i & 63] += d; return shadow[i & 63]; }
+long vrt_sh_get (int i) { return shadow[i & 63]; }
+void vrt_sh_set (int i, long v) { shadow[i & 63] = v; }
 
 /* ---------- C01 oracle: shadow occupancy ---------- */
 static struct { const void *mu; int w, r; } occ[16];
